@@ -13,5 +13,5 @@ func VerifClientConns(c Client) (live int, max int) {
 	if !ok {
 		return -1, -1
 	}
-	return cl.conns.Load().len(), cl.options.ClientMaxConns
+	return int(cl.conns.Load().verifLive()), cl.options.ClientMaxConns
 }
